@@ -313,6 +313,7 @@ func (p *probeRun) privateFingerprint(upto int) string {
 
 func (p *probeRun) checkBuffers() {
 	for _, g := range p.buffers {
+		p.o.Check("C18", "input-unchanged")
 		if !bytes.Equal(g.buf, g.snap) {
 			p.fail("C18", "input-unchanged", "the caller's byte slice (or its spare capacity / surroundings) was modified", hexOrDash(g.snap), hexOrDash(g.buf))
 		}
